@@ -588,5 +588,25 @@ def r09_11(ctx):
              "catches it: the symbol that depends on the relation cannot be evaluated", f.loc(bad[0])) if bad else ctx.ok(construct, f.loc(uses[0])))
 
 
+def r09_12(ctx):
+    """R09.12 the choice's selection consults only what the loop check knows about: Choice._selection_from_defaults() asks for the
+    visibility of a `default` symbol only if it is one of the choice's own symbols (C05 R05.2) - the dependency graph has
+    member -> choice edges but none for a default that names an outside symbol, so a loop through such a symbol's prompt is
+    accepted at load and recurses on evaluation (fixed defect 5.45)."""
+    from . import c05
+    from .common import delegate
+    delegate(ctx, c05.r05_2, lambda c: "default loop" in c)
+
+
+def r09_13(ctx):
+    """R09.13 a note about a value never stops the evaluation: in Symbol.str_value / bool_value every log call that interpolates text
+    from the tree or the configuration (`<x>.str_value`, a user value) escapes it - the logger renders Rich markup and a literal such
+    as `[/a]` in `set X=\"[/a]\"` raised MarkupError out of X.str_value on an accepted tree (fixed defect 5.46)."""
+    from .common import log_text_escaped
+    n = log_text_escaped(ctx, [f"{CORE}:Symbol.str_value", f"{CORE}:Symbol.bool_value"], "the value cannot be computed although the tree was accepted")
+    if n < 4:
+        raise AnalysisError(f"only {n} text interpolations found in the evaluators' log calls")
+
+
 def rules():
-    return [("R09.11", r09_11, 1), ("R09.10", r09_10, 80), ("R09.9", r09_9, 1), ("R09.8", r09_8, 1), ("R09.7", r09_7, 2), ("R09.6", r09_6, 6), ("R09.1", r09_1, 14), ("R09.1b", r09_1b, 3), ("R09.2", r09_2, 6), ("R09.3", r09_3, 8), ("R09.4", r09_4, 5), ("R09.5", r09_5, 10)]
+    return [("R09.13", r09_13, 4), ("R09.12", r09_12, 1), ("R09.11", r09_11, 1), ("R09.10", r09_10, 80), ("R09.9", r09_9, 1), ("R09.8", r09_8, 1), ("R09.7", r09_7, 2), ("R09.6", r09_6, 6), ("R09.1", r09_1, 14), ("R09.1b", r09_1b, 3), ("R09.2", r09_2, 6), ("R09.3", r09_3, 8), ("R09.4", r09_4, 5), ("R09.5", r09_5, 10)]
